@@ -369,7 +369,41 @@ func GenOdd(r *core.PRNG) string {
 	ctl := core.Pick(r, []string{"break", "continue", "break", "if true { break }", "for { break }; break", "switch { case true: continue }", "return"})
 	loop := core.Pick(r, []string{"for", "for i := 0; i < 2; i++", "for _, v := range []int{1, 2}", "for k := range map[string]int{\"a\": 1}"})
 	n := core.Pick(r, wildInts)
-	switch r.Intn(23) {
+	switch r.Intn(25) {
+	case 23, 24:
+		// grouped declarations (a, b T) nested deeply: func-typed parameters and struct-typed
+		// fields whose type again has grouped names, in every place a type or literal may stand
+		d := 2 + r.Intn(45)
+		fn := "func(" + strings.Repeat("a, b func(", d) + "int" + strings.Repeat(")", d) + ")"
+		st := "struct { " + strings.Repeat("a, b struct { ", d) + "x int" + strings.Repeat(" }", d) + " }"
+		if r.Chance(1, 3) {
+			fn = "func(" + strings.Repeat("a, b, c func(x, y int, ", d) + "z int" + strings.Repeat(")", d) + ")"
+		}
+		switch r.Intn(12) {
+		case 0:
+			return "const ( A = " + fn + " {} )"
+		case 1:
+			return "const ( A = iota; B; C = " + fn + " {}; D )"
+		case 2:
+			return "const ( A = func() { type T " + st + " } )"
+		case 3:
+			return "func f(cb " + fn + ") {}; 7"
+		case 4:
+			return "type I interface { m" + fn[4:] + " }; 7"
+		case 5:
+			return "type T " + st + "; x := &T{}; println(x)"
+		case 6:
+			return "var ( x " + st + "; y = " + fn + " {} )"
+		case 7:
+			return "x := []" + st + "{}; y := map[string]" + fn + "{}; len(x) + len(y)"
+		case 8:
+			return "const ( A, B = 1, " + fn + " {}; C, D; E, F )"
+		case 9:
+			return "type T " + st + "; func (t *T) m" + fn[4:] + " {}; const ( K = iota; L = &T{} )"
+		case 10:
+			return "const ( A = []" + st + "{}; B; C )"
+		}
+		return "x := " + fn + " {}; const ( A = x; B = " + fn + " { const ( P = " + fn + " {} ) } )"
 	case 21, 22:
 		// containers mutated while they are ranged over: deletes ahead of the cursor (across the
 		// key-list compaction), inserts, NaN keys, slices re-sliced and appended to
